@@ -610,7 +610,10 @@ RIG: Rig | None = None
 
 def _pid_of_task(task):
     try:
-        return task.payload.payload['pid']
+        pl = task.payload.payload
+        if isinstance(pl, dict):
+            return pl['pid']
+        return file_specs(task.payload.path)[0]      # the file-list family: the id is in the file's name
     except Exception:   # noqa: BLE001
         return -1
 
@@ -1099,6 +1102,468 @@ def expected_result(p, reraise):
     return (pid, None, tuple(mro_ids(c)))
 
 
+# ------------------------------------------------------------------ XF the file-list entry points (strengthening 8)
+# The payloads are real files: processing_loop(file names), parproc_visual(VisualPayload(path, text)) with and without
+# its summary, parproc_visual(legacy list of file names), next to parproc / parallel_proc on the same payload objects.
+# What a file makes the function do is in its NAME (`<pid>~<first>~<second>~t<text>.ext`), so the TEXT is free: empty,
+# blank, comment-only, no final newline, CR/LF, non-ASCII, long.  A file list may name a file more than once, under
+# the same or another spelling.  Every entry of the list is one task of the model.
+FILE_TEXTS: list[tuple[str, str]] = [
+    ('empty', ''), ('space', ' '), ('newline', '\n'), ('blank-lines', '\n\n\n'), ('no-eol', 'one line'),
+    ('two-lines', 'alpha\nbeta\n'), ('hash-comment', '# only a comment\n'), ('slash-comment', '// only a comment\n'),
+    ('code-and-comments', 'x = 1  # one\n\n# two\ny = 2\n'), ('crlf', 'a\r\nb\r\n'), ('tabs', '\t\t\n'),
+    ('zero', '0'), ('formfeed', '\x0c'), ('non-ascii', 'señal → λ\n'), ('long', 'x = 1\n' * 2000),
+]
+PLAIN_TEXT = 5
+FILE_EXTS = ['.txt', '.py', '.java', '', '.ebnf', '.js']
+FILE_DIR = 'fl'
+SPELLINGS = {
+    'plain': lambda n: f'{FILE_DIR}/{n}',
+    'dot': lambda n: f'./{FILE_DIR}/{n}',                    # an equal Path
+    'double-slash': lambda n: f'{FILE_DIR}//{n}',            # an equal Path
+    'dotdot': lambda n: f'{FILE_DIR}/sub/../{n}',            # another Path, the same file
+    'absolute': lambda n: os.path.join(os.getcwd(), FILE_DIR, n),
+    'symlink': lambda n: f'ln/{n}',                          # another Path, the same file
+}
+FENTRIES = ['processing_loop', 'processing_loop:nosummary', 'visual:summary', 'visual:nosummary', 'visual:legacy',
+            'visual:legacy:nosummary', 'parproc', 'parallel_proc']
+PLAIN_OPTS = {'verbose': False, 'display': False, 'cont': 'list', 'share': False, 'aspath': False}
+
+
+def file_specs(path) -> tuple[int, str, str]:
+    parts = Path(path).name.split('~')
+    return int(parts[0]), parts[1].replace('=', ':'), parts[2].replace('=', ':')
+
+
+def c18_file_func(arg, *args, **kwargs):
+    if args != ('A',) or kwargs != {'k': 1}:
+        raise AssertionError('args/kwargs not forwarded')
+    if isinstance(arg, Path):                     # taskproc's retry: func(payload.path, ...)
+        return behave(file_specs(arg)[2])
+    text = arg.payload                            # (None for a legacy list of names)
+    if text is not None and text != arg.path.read_text():
+        return 'c18-text-is-not-the-files'
+    return behave(file_specs(arg.path)[1])
+
+
+class FileCorpus:
+    """files under the scratch working directory, written on demand"""
+
+    def __init__(self):
+        os.makedirs(f'{FILE_DIR}/sub', exist_ok=True)
+        if not os.path.lexists('ln'):
+            os.symlink(FILE_DIR, 'ln')
+        self.done = set()
+        self.texts = []
+        for name, text in FILE_TEXTS:                        # shapes the platform's read_text() cannot read are left out
+            p = Path(FILE_DIR) / 'probe'
+            p.write_bytes(text.encode('utf-8'))
+            try:
+                p.read_text()
+            except (UnicodeError, OSError):
+                continue
+            self.texts.append(name)
+        (Path(FILE_DIR) / 'probe').unlink()
+
+    def name(self, item) -> str:
+        pid, first, second, ti, ext, spelling = item
+        n = f'{pid}~{first.replace(":", "=")}~{second.replace(":", "=")}~t{ti}{ext}'
+        if n not in self.done:
+            (Path(FILE_DIR) / n).write_bytes(FILE_TEXTS[ti][1].encode('utf-8'))
+            self.done.add(n)
+        return SPELLINGS[spelling](n)
+
+
+def fentry_flags(fentry):
+    kind = fentry.split(':')[0]
+    legacy = fentry.startswith('visual:legacy')
+    summary = kind in ('processing_loop', 'visual') and 'nosummary' not in fentry
+    return kind, legacy, legacy or summary          # (entry kind, legacy list of names, results are collected first)
+
+
+def call_file_entry(fentry, names, parallel, reraise, mw, opts):
+    import tatsu.parproc as tp
+    from tatsu.parproc.payload import StrPayload, VisualPayload
+    cont = CONTAINERS[opts['cont']][1]
+    progress = None if opts['display'] else QuietProgress()
+    kind, legacy, _ = fentry_flags(fentry)
+    common = dict(eprint=_quiet, verbose=opts['verbose'], usecolor=False, parallel=parallel, reraise=reraise,
+                  max_workers=mw, k=1)
+    if 'nosummary' in fentry:
+        common['summary'] = False
+    if kind == 'processing_loop':
+        items = [Path(n) if (opts['aspath'] and i % 2) else n for i, n in enumerate(names)]
+        return tp.processing_loop(cont(items), c18_file_func, progress, 'A', **common)
+    if legacy:
+        items = [StrPayload(n) if (opts['aspath'] and i % 2) else n for i, n in enumerate(names)]
+        return tp.parproc_visual(c18_file_func, cont(items), progress, 'A', **common)
+    made, items = {}, []
+    for n in names:
+        if not (opts['share'] and n in made):     # share: a repeated entry is the SAME payload object
+            made[n] = VisualPayload(Path(n), Path(n).read_text())
+        items.append(made[n])
+    if kind == 'visual':
+        return tp.parproc_visual(c18_file_func, cont(items), progress, 'A', **common)
+    if kind == 'parproc':
+        return tp.parproc(c18_file_func, cont(items), 'A', parallel=parallel, reraise=reraise, max_workers=mw, k=1)
+    if kind == 'parallel_proc':
+        return tp.parallel_proc(cont(items), c18_file_func, 'A', parallel=parallel, reraise=reraise, max_workers=mw, k=1)
+    raise AssertionError(fentry)
+
+
+def file_canon(r):
+    """((payload id, outcome, exception mro), path the result names)"""
+    from tatsu.parproc.result import Result
+    if not isinstance(r, Result):
+        return ('not-a-result', repr(type(r))), None
+    pl = r.payload
+    path = pl.path if hasattr(pl, 'path') else Path(str(pl))
+    o = r.outcome
+    if type(o) is not int and not (o is None and r.exception is not None):
+        o = obj_code(o)
+    try:
+        pid = file_specs(path)[0]
+    except Exception:   # noqa: BLE001
+        pid = repr(pl)
+    return (pid, o, None if r.exception is None else tuple(mro_ids(type(r.exception)))), str(path)
+
+
+def run_files_real(names, fentry, opts, parallel, reraise, threads, mw, sched, real_iter):
+    """one run of a file-list entry point under the rig -> (ending, results, paths, events), rig"""
+    global RIG
+    RIG = rig = Rig(sched, len(names), real_iter)
+    sys.setrecursionlimit(LIMIT0)
+    out, paths = [], []
+    with Patched(threads), contextlib.redirect_stderr(io.StringIO()), contextlib.redirect_stdout(io.StringIO()):
+        try:
+            for r in call_file_entry(fentry, names, parallel, reraise, mw, opts):
+                c, path = file_canon(r)
+                out.append(c)
+                paths.append(path)
+                rig.events.append(('yield', c))
+                rig.tick()
+        except RigAbort as e:
+            ending = ('no-termination', str(e))
+        except Hang:
+            raise
+        except BaseException as e:   # noqa: BLE001
+            ending = ('raised', tuple(mro_ids(type(e))))
+        else:
+            ending = ('interrupted',) if (rig.stop is not None and rig.stop.is_set()) else ('done',)
+    return (ending, out, paths, rig.events), rig
+
+
+def shadow(item):
+    """the task of the model for one entry of a file list"""
+    pid, first, second = item[:3]
+    return mk_payload(pid, first, second, visual=True)
+
+
+def files_verdict(names, items, fentry, parallel, reraise, threads, mw, cpu, real, rig, rp, rm):
+    """None when the run agrees with the model and with the oracle, else (kind, shape, model part)"""
+    ending, out, paths, events = real
+    m_end = model_ending(rp[0])
+    m_out = [model_result(x) for x in rp[1]]
+    used_pool = bool(rig.execs)
+    m_evs = [model_event(x) for x in rm[2]] if used_pool else []
+    buffered = fentry_flags(fentry)[2]
+    evs = events if used_pool else [e for e in events if e[0] != 'yield']
+    if buffered:       # the results are collected before the first one is handed on: nothing is yielded before a raise
+        evs = [e for e in evs if e[0] != 'yield']
+        m_evs = [e for e in m_evs if e[0] != 'yield']
+        if m_end[0] == 'raised':
+            m_out = m_out[:len(out)]
+    want_exec = [('DetThreadPool' if threads else 'DetProcessPool', mw or cpu)] if used_pool else []
+    model = {'ending': m_end, 'results': m_out, 'events': m_evs}
+    if not (ending == m_end and out == m_out and evs == m_evs and rig.execs == want_exec and not rig.notes):
+        shape = classify(None, reraise, (ending, out, evs), (m_end, m_out, m_evs))
+        if shape.startswith('results:'):          # (a list may name a file twice: equal ids are not duplicates here)
+            shape = 'results:' + ('lost' if len(out) < len(m_out) else 'duplicated' if len(out) > len(m_out) else 'different')
+        if rig.execs != want_exec and shape == 'trace':
+            shape = 'executor-max-workers'
+        return 'xf', shape, model
+    plain = [expected_result(shadow(it), reraise) for it in items]
+    if all(x is not None for x in plain):
+        if ending != ('done',):
+            return 'oracle:xf', 'ending', model
+        if Counter(out) != Counter(plain) or (not parallel and out != plain):
+            return 'oracle:xf', 'multiset', model
+        if Counter(paths) != Counter(str(Path(n)) for n in names):
+            return 'oracle:xf', 'result-names-another-entry', model
+    return None
+
+
+def run_files(chk: Check, mr: ModelRun):
+    cpu = multiprocessing.cpu_count()
+    corpus = FileCorpus()
+    texts = [i for i, (n, _) in enumerate(FILE_TEXTS) if n in corpus.texts]
+    chk.count('xf.text_shapes', len(texts))
+    rng = chk.rng
+    runs = []
+
+    def one(items, fentry, opts, parallel, reraise, threads, mw, sched, real_iter):
+        names = [corpus.name(it) for it in items]
+        real, rig = run_files_real(names, fentry, opts, parallel, reraise, threads, mw, sched, real_iter)
+        return names, real, rig
+
+    def record(items, fentry, opts, parallel, reraise, threads, mw, sched, real_iter):
+        names, real, rig = one(items, fentry, opts, parallel, reraise, threads, mw, sched, real_iter)
+        full = (list(sched) + [0] * len(rig.counts))[:len(rig.counts)] if parallel else list(sched)
+        runs.append((items, names, fentry, dict(opts), parallel, reraise, threads, mw, full, real, rig, real_iter))
+        chk.count('xf.entry.' + fentry)
+        chk.count('xf.runs')
+        for it in set(items):
+            chk.count('xf.text.' + FILE_TEXTS[it[3]][0])
+        if len({it[:5] for it in items}) < len(items):
+            chk.count('xf.lists_with_repeated_files')
+        return full, real, rig
+
+    def exhaust(items, fentry, opts, parallel, reraise, threads, mw, limit=None):
+        sched, nsched = [], 0
+        while True:
+            full, real, rig = record(items, fentry, opts, parallel, reraise, threads, mw, sched, nsched % 2 == 1)
+            nsched += 1
+            j = len(full) - 1
+            while j >= 0 and full[j] + 1 >= rig.counts[j]:
+                j -= 1
+            if j < 0 or real[0][0] == 'no-termination' or not parallel or (limit and nsched >= limit):
+                break
+            if nsched > math.factorial(max(len(items), 1)):
+                break                                  # (reported by the comparison: results duplicated)
+            sched = full[:j] + [full[j] + 1]
+
+    MODES = [(True, False, 1), (True, True, 2), (False, False, None), (True, False, None)]
+    counter = itertools.count()
+
+    def item(pid, first, second='ret:0', ti=None, spelling='plain'):
+        k = next(counter)
+        ti = texts[(7 * k) % len(texts)] if ti is None else ti
+        return (pid, first, second, ti, FILE_EXTS[k % len(FILE_EXTS)], spelling)
+
+    def respell(it, spelling):
+        return it[:5] + (spelling,)
+
+    def shapes(base):
+        """lists over the distinct files `base` in which files are named once or several times"""
+        yield 'distinct', list(base)
+        if not base:
+            return
+        a = base[0]
+        yield 'repeated-adjacent', [a, a] + base[1:]
+        yield 'repeated-apart', base + [a]
+        yield 'respelled-equal-path', [a] + base[1:] + [respell(a, 'dot' if len(base) % 2 else 'double-slash')]
+        yield 'respelled-other-path', [respell(a, ('dotdot', 'absolute', 'symlink')[len(base) % 3])] + base[1:] + [a]
+        if len(base) <= 2:
+            yield 'three-times', [a] + base[1:] + [a, a]
+        if len(base) == 2:
+            yield 'all-twice', base + base
+
+    # 1. small lists: behaviours x how often a file is named x entry point x mode, every schedule (up to 3 entries; a
+    #    few schedules for 4)
+    behaviours = [('ret:1', 'ret:0'), ('exc:ValueError', 'ret:0'), ('obj:1', 'ret:0'), ('exc:TypeError', 'ret:5'),
+                  ('exc:TypeError', 'exc:KeyError'), ('os:ENOENT', 'ret:0')]
+    ci = 0
+    for k in range(0, 3 + 1):
+        bases = [[item(i + 1, f'ret:{10 * (i + 1)}') for i in range(k)]]
+        for j, (first, second) in enumerate(behaviours):
+            if k:
+                pos = j % k
+                bases.append([item(i + 1, first if i == pos else f'ret:{10 * (i + 1)}', second if i == pos else 'ret:0')
+                              for i in range(k)])
+        if k:
+            bases.append([item(i + 1, 'exc:KeyError') for i in range(k)])
+            bases.append([item(1, 'exc:RuntimeError')] + [item(i + 2, 'ret:3') for i in range(k - 1)])      # propagates
+            bases.append([item(i + 1, 'ret:3') for i in range(k - 1)] + [item(k, 'exc:KeyboardInterrupt')])
+        for bi, base in enumerate(bases):
+            if chk.quick and k == 3 and bi % 2:
+                continue
+            for shape, items in shapes(base):
+                for fentry in FENTRIES:
+                    ci += 1
+                    mi = ci + ci // len(FENTRIES)       # (not locked to the position of the entry point in FENTRIES)
+                    parallel, threads, mw = MODES[mi % len(MODES)]
+                    reraise = (ci % 11 == 0)
+                    opts = dict(PLAIN_OPTS, verbose=(ci % 3 == 0), share=(mi % 2 == 0), aspath=(ci % 5 == 0),
+                                cont=list(CONTAINERS)[ci % len(CONTAINERS)] if mi % 4 == 0 else 'list')
+                    exhaust(items, fentry, opts, parallel, reraise, threads, mw, limit=None if len(items) <= 3 else 3)
+                    chk.count('xf.small_configs.' + shape)
+    # 2. every text shape at every position of three files, every entry point, sequential and parallel; every outcome
+    #    object and every capturable class of the lattice as the middle one of three
+    for ti in texts:
+        for pos in range(3):
+            for fentry in FENTRIES:
+                ci += 1
+                mi = ci + ci // len(FENTRIES)       # (not locked to the position of the entry point in FENTRIES)
+                items = [item(i + 1, f'ret:{i + 1}' if (i + ci) % 3 else 'exc:ValueError',
+                              ti=ti if i == pos else PLAIN_TEXT) for i in range(3)]
+                for parallel, threads, mw in MODES[(mi % 2)::2]:
+                    record(items, fentry, dict(PLAIN_OPTS, verbose=(mi % 4 == 0)), parallel, False, threads, mw,
+                           [ci % 3, mi % 2], mi % 2 == 1)
+                chk.count('xf.text_sweep_configs')
+    capturable = [n for n, c in CLASSES.items() if issubclass(c, Exception) and not issubclass(c, RuntimeError)
+                  and not issubclass(c, (StopIteration, StopAsyncIteration, TypeError))]
+    sweep = [f'obj:{k}' for k in range(len(OBJS))] + ['exc:' + n for n in capturable] + ['os:' + e for e in ERRNOS]
+    for si, spec in enumerate(sweep):
+        for fentry in (FENTRIES if spec.startswith('obj:') else [FENTRIES[si % len(FENTRIES)], FENTRIES[(si + 3) % len(FENTRIES)]]):
+            ci += 1
+            mi = ci + ci // len(FENTRIES)       # (not locked to the position of the entry point in FENTRIES)
+            parallel, threads, mw = MODES[mi % len(MODES)]
+            items = [item(1, 'ret:1'), item(2, spec, ti=texts[ci % len(texts)]), item(3, 'ret:3')]
+            record(items, fentry, dict(PLAIN_OPTS, verbose=(mi % 2 == 0)), parallel, False, threads, mw, [ci % 3, mi % 2],
+                   mi % 2 == 1)
+            chk.count('xf.outcome_sweep_configs')
+    # 3. sampled: longer lists, random behaviours / texts / repetitions / spellings / options / schedules
+    kinds = ['ret'] * 7 + ['exc:ValueError', 'exc:KeyError', 'exc:C18Error', 'os:EIO', 'obj:0', 'obj:1', 'obj:4']
+    for it in range(150 if chk.quick else 2500):
+        n = rng.randint(1, 10)
+        items = []
+        for i in range(n):
+            if items and rng.random() < 0.3:       # an entry for a file that is already in the list
+                items.append(respell(rng.choice(items), rng.choice(list(SPELLINGS))))
+                continue
+            k = rng.choice(kinds)
+            first = f'ret:{rng.randint(0, 99)}' if k == 'ret' else k
+            second = 'ret:0'
+            if rng.random() < 0.15:
+                first, second = 'exc:TypeError', rng.choice(['ret:5', 'exc:ValueError', 'obj:0', 'os:EINTR'])
+            ti = texts[0] if rng.random() < 0.2 else rng.choice(texts)
+            items.append((i + 1, first, second, ti, rng.choice(FILE_EXTS), rng.choice(list(SPELLINGS))))
+        propagating = rng.random() < 0.08
+        if propagating:
+            items[rng.randrange(n)] = (n + 1, rng.choice(['exc:RuntimeError', 'exc:C18Base', 'exc:KeyboardInterrupt']),
+                                       'ret:0', rng.choice(texts), '.txt', 'plain')
+        reraise = rng.random() < 0.05
+        opts = {'verbose': rng.random() < 0.5, 'display': (not propagating and not reraise and rng.random() < 0.15),
+                'cont': rng.choice(list(CONTAINERS)), 'share': rng.random() < 0.5, 'aspath': rng.random() < 0.3}
+        parallel, threads, mw = rng.choice(MODES + [(True, False, 3), (True, True, None), (True, False, 0)])
+        record(items, rng.choice(FENTRIES), opts, parallel, reraise, threads, mw,
+               [rng.randint(0, 1000) for _ in range(n + 2)], it % 2 == 1)
+        chk.count('xf.sampled_runs')
+
+    reqs = []
+    for items, names, fentry, opts, parallel, reraise, threads, mw, sched, real, rig, real_iter in runs:
+        tasks = sx([task_sx(shadow(it), reraise) for it in items])
+        reqs.append(f'(parproc {sx(parallel)} {sx(threads)} {mw or 0} {cpu} {sx(sched)} {tasks})')
+        reqs.append(f'(pmap {sx(threads)} {mw or 0} {cpu} {sx(sched)} {tasks})')
+    reps = mr.ask(reqs)
+
+    def judge(items, fentry, opts, parallel, reraise, threads, mw, sched, real_iter):
+        """a variant of a failing run: does it agree with the model and the oracle?"""
+        names, real, rig = one(items, fentry, opts, parallel, reraise, threads, mw, sched, real_iter)
+        tasks = sx([task_sx(shadow(it), reraise) for it in items])
+        rp, rm = mr.ask([f'(parproc {sx(parallel)} {sx(threads)} {mw or 0} {cpu} {sx(sched)} {tasks})',
+                         f'(pmap {sx(threads)} {mw or 0} {cpu} {sx(sched)} {tasks})'])
+        return files_verdict(names, items, fentry, parallel, reraise, threads, mw, cpu, real, rig, rp, rm) is None
+
+    def attribute(items, fentry, opts, parallel, reraise, threads, mw, sched, real_iter):
+        """signature material: what the disagreement depends on (entry point, repeated files, a text shape, options)"""
+        rest = (parallel, reraise, threads, mw, sched, real_iter)
+        if fentry != 'parproc' and not judge(items, 'parproc', PLAIN_OPTS, *rest):
+            return ''                                # parproc() itself on the same payloads: nothing to do with this family
+        parts = []
+        if fentry != 'parproc' and judge(items, 'parproc', opts, *rest):
+            parts.append('entry=' + fentry)
+        seen, uniq = set(), []
+        for it in items:
+            if it[:5] not in seen:
+                seen.add(it[:5])
+                uniq.append(it)
+        if len(uniq) < len(items) and judge(uniq, fentry, opts, parallel, reraise, threads, mw, [], real_iter):
+            parts.append('repeated-entries')
+        for ti in sorted({it[3] for it in items if it[3] != PLAIN_TEXT}):
+            if judge([it[:3] + (PLAIN_TEXT if it[3] == ti else it[3],) + it[4:] for it in items], fentry, opts, *rest):
+                parts.append('text=' + FILE_TEXTS[ti][0])
+                break
+        for o in PLAIN_OPTS:
+            if opts[o] != PLAIN_OPTS[o] and judge(items, fentry, dict(opts, **{o: PLAIN_OPTS[o]}), *rest):
+                parts.append('option=' + o)
+                break
+        return ''.join(':' + p for p in parts)
+
+    bad = obad = 0
+    sigs_seen: dict[tuple, str] = {}
+    for idx, (items, names, fentry, opts, parallel, reraise, threads, mw, sched, real, rig, real_iter) in enumerate(runs):
+        rp, rm = reps[2 * idx], reps[2 * idx + 1]
+        n = len(items)
+        descr = ','.join(f'{it[0]}:{it[1]}>{it[2]}:{FILE_TEXTS[it[3]][0]}{it[4]}:{it[5]}' for it in items)
+        chk.case(f'xf:{fentry}:{descr}:{parallel}:{threads}:{mw}:{sched}:{sorted(opts.items())}:{reraise}',
+                 nontrivial=n >= 2)
+        verdict = files_verdict(names, items, fentry, parallel, reraise, threads, mw, cpu, real, rig, rp, rm)
+        if verdict is None:
+            continue
+        kind, shape, model = verdict
+        if kind == 'xf':
+            bad += 1
+        else:
+            obad += 1
+        mode = 'seq' if not parallel else 'thread' if threads else 'proc'
+        # the attribution re-runs variants: once per (kind, shape, entry, repeated?, texts) class
+        akey = (kind, shape, fentry, len({it[:5] for it in items}) < n, tuple(sorted({it[3] for it in items})),
+                tuple(sorted(opts.items())))
+        if akey not in sigs_seen:
+            sigs_seen[akey] = attribute(items, fentry, opts, parallel, reraise, threads, mw, sched, real_iter)
+        suffix = sigs_seen[akey]
+        sig = (f'xf:{mode}:{shape}' if kind == 'xf' else f'oracle:xf:{shape}') + suffix
+        ending, out, paths, events = real
+        chk.violation(sig, f'{fentry} on the file list [{descr[:300]}] ({"parallel" if parallel else "sequential"}, mw={mw}, '
+                           f'schedule={sched}): {shape} - not one result per entry of the list as the model / parproc() gives',
+                      {'correspondence': 'XF file-list entry points', 'entry': fentry, 'options': opts,
+                       'files': [{'pid': it[0], 'first': it[1], 'second': it[2], 'text': FILE_TEXTS[it[3]][0],
+                                  'suffix': it[4], 'spelling': it[5]} for it in items],
+                       'parallel': parallel, 'threads': threads, 'max_workers': mw, 'schedule': sched, 'reraise': reraise,
+                       'impl': {'ending': ending, 'results': out, 'paths': [os.path.relpath(p) if p else p for p in paths],
+                                'executors': rig.execs, 'notes': rig.notes},
+                       'model': model})
+    chk.obligation('XF:processing_loop / parproc_visual (summary on and off, legacy name lists) / parproc / parallel_proc on '
+                   'real files under the deterministic executor vs ParProc.v (one task per entry of the list)',
+                   'correspondence', bad == 0, f'{bad} of {len(runs)} runs differ')
+    chk.obligation('OF:exactly one result per entry of the file list, each naming its entry (deterministic executor)',
+                   'oracle', obad == 0)
+
+    # 4. the same through the real process pool (multiset only)
+    pool_bad = 0
+    for pi in range(4 if chk.quick else 24):
+        fentry = FENTRIES[(pi + chk.seed) % 6]            # the six file-list entries
+        n = rng.choice([4, 7, 11])
+        items = []
+        for i in range(n):
+            if items and rng.random() < 0.3:
+                items.append(respell(rng.choice(items), rng.choice(list(SPELLINGS))))
+            else:
+                items.append((i + 1, rng.choice([f'ret:{i}', f'ret:{i}', 'exc:ValueError', 'obj:1', 'os:EIO']), 'ret:0',
+                              texts[0] if rng.random() < 0.3 else rng.choice(texts), rng.choice(FILE_EXTS), 'plain'))
+        names = [corpus.name(it) for it in items]
+        sys.setrecursionlimit(LIMIT0)
+        out, paths = [], []
+        try:
+            with contextlib.redirect_stderr(io.StringIO()), contextlib.redirect_stdout(io.StringIO()):
+                for r in call_file_entry(fentry, names, True, False, rng.choice([1, 2, 3]), dict(PLAIN_OPTS, verbose=pi % 2 == 0)):
+                    c, path = file_canon(r)
+                    out.append(c)
+                    paths.append(path)
+            ending = ('done',)
+        except Hang:
+            raise
+        except BaseException as e:   # noqa: BLE001
+            ending = ('raised', type(e).__name__)
+        plain = [expected_result(shadow(it), False) for it in items]
+        chk.case(f'xf-pool:{fentry}:{[it[:5] for it in items]}')
+        chk.count('xf.process_pool_runs')
+        if ending != ('done',) or Counter(out) != Counter(plain) or Counter(paths) != Counter(str(Path(n_)) for n_ in names):
+            pool_bad += 1
+            why = 'raised:' + ending[1] if ending[0] == 'raised' else 'lost' if len(out) < n else \
+                'duplicated' if len(out) > n else 'different'
+            chk.violation(f'xf:process-pool:{why}:entry={fentry}',
+                          f'real process pool: {fentry} on a list of {n} file names does not give one result per entry',
+                          {'correspondence': 'XF real process pool', 'entry': fentry, 'files': [list(it) for it in items],
+                           'impl': {'ending': ending, 'results': out}, 'expected_multiset': plain})
+    chk.obligation('XF2:the file-list entry points through the real process pool give one result per entry', 'correspondence',
+                   pool_bad == 0)
+    ex = runs[len(runs) // 2]
+    chk.sample({'xf_entry': ex[2], 'files': [f'{it[0]}:{it[1]}:{FILE_TEXTS[it[3]][0]}:{it[5]}' for it in ex[0]],
+                'ending': ex[9][0], 'yielded_payloads': [r[0] for r in ex[9][1]]})
+
+
 # ------------------------------------------------------------------ X2 real pools
 class RealThreads:
     def __enter__(self):
@@ -1344,13 +1809,21 @@ def main():
                 '(generator expression and function, list iterator, map, filter, chain, reversed, iterator object), through '
                 'parproc(), parallel_proc() and parproc_visual() (display off): every pair for 0..3 payloads x both '
                 'executors and sequential x every schedule, and rotated through all other X1 / X2 run families. '
+                'File lists (strengthening 8, XF): real files whose behaviour is in the name and whose text is free (empty, '
+                'blank, comment-only, no final newline, CR/LF, non-ASCII, long; 6 suffixes), through processing_loop(), '
+                'parproc_visual() with and without its summary and with a legacy list of names, parproc() and '
+                'parallel_proc(); lists of 0..3 distinct files x files named once / twice / three times / under another '
+                'spelling of the same or of another Path (./, //, sub/.., absolute, through a symlink) x every entry x '
+                'every schedule; every text shape at every position, every outcome object and capturable class; sampled '
+                'longer lists with verbose / the real progress display / shared payload objects / Path entries / containers; '
+                'a few runs through the real process pool. '
                 'Non-trivial: parallel with at least two tasks / an '
                 'exception is raised; distinct by pattern, mode, worker count and schedule.')
     chk.trusted += ['concurrent.futures: Future, the contract of as_completed (snapshot at the call, each future once, any '
                     'order; the real iterator is driven in half of the X1 runs) and of the pools; multiprocessing (fork), pickle',
                     'modelled: task.py taskproc, pmap.py executor_pmap/process_pmap/thread_pmap, parproc.py parproc; not '
                     'modelled: pickable (oracle: outcome == pickable(raw outcome)), the stop event set from outside, '
-                    'imap_pmap/interpreter_pmap (unreachable on 3.12), summary, the display of parproc_visual (driven with summary=False, verbose=False and a silent progress object)']
+                    'imap_pmap/interpreter_pmap (unreachable on 3.12), what summary and the display of parproc_visual print (XF drives both on and off and compares only the results that come out)']
     chk.assumptions += ['the stop event is clear when parproc starts and is only set by a KeyboardInterrupt in a task',
                         'a task runs when its future completes; pickable and payload.raises() do not raise',
                         'results and captured exceptions survive pickling (violations are reported by X2)']
@@ -1367,7 +1840,7 @@ def main():
         try:
             os.chdir(scratch)
             signal.alarm(600 if chk.quick else 3000)
-            for phase in (run_table, run_x1, run_x2):
+            for phase in (run_table, run_x1, run_files, run_x2):
                 t0 = time.time()
                 phase(chk, mr)
                 if os.environ.get('C18_TIMES'):
